@@ -23,14 +23,18 @@ def gen_case(rng):
 
     def size():
         return rng.choice(palette) if rng.random() < 0.75 else rng.randint(1, 48)
+    clock = t0                                   # in sample periods; boundary targets (0, the start, a rewind onto 0) are drawn on purpose
     for _ in range(rng.randint(1, 9)):
         r = rng.random()
         if r < 0.62:
-            ops.append(["get", size()])
+            n = size()
+            ops.append(["get", n]); clock += n
         elif r < 0.72:
-            ops.append(["set_time", rng.randint(0, 5000)])
+            clock = rng.choice([0, 0, t0, rng.randint(0, 5000), rng.randint(0, 5000)])
+            ops.append(["set_time", clock])
         elif r < 0.80:
-            ops.append(["add_time", rng.randint(0, 300)])
+            d = -clock if rng.random() < 0.3 else rng.randint(-min(clock, 300), 300)
+            ops.append(["add_time", d]); clock += d
         elif r < 0.88:
             ops.append(["reset_start"])
         else:
